@@ -77,6 +77,8 @@ pub struct ExploreCfg {
     pub max_cost: u32,
     pub check_finish: bool,
     pub max_states: usize,
+    /// stop before a BFS level when the resident set of the process exceeds this many GB
+    pub max_rss_gb: f64,
     pub time_cap: Duration,
     pub keep_samples: usize,
 }
@@ -88,6 +90,7 @@ impl Default for ExploreCfg {
             max_cost: u32::MAX,
             check_finish: false,
             max_states: 20_000_000,
+            max_rss_gb: 20.0,
             time_cap: Duration::from_secs(3600),
             keep_samples: 3,
         }
@@ -143,7 +146,8 @@ struct Node<Op> {
 
 enum Succ<Op> {
     New { key: u128, hist: Vec<Op>, spent: u32, outcome: Option<String> },
-    Viol { sig: String, detail: String, hist: Vec<Op> },
+    Viol { sig: String, detail: String, hist: Vec<Op>, hits: u64 },
+    MoreHits { sig: String, n: u64 },
 }
 
 fn rebuild<S: System>(mk: &(impl Fn() -> S + Sync), hist: &[S::Op]) -> S {
@@ -174,6 +178,13 @@ fn guarded<S: System>(s: &mut S, f: impl FnOnce(&mut S) -> Result<(), Fail>) -> 
             format!("panic at {}: {}", p.location, p.message),
         )),
     }
+}
+
+/// Resident set size of this process in GB (Linux), if it can be read.
+pub fn rss_gb() -> Option<f64> {
+    let s = std::fs::read_to_string("/proc/self/statm").ok()?;
+    let pages: f64 = s.split_whitespace().nth(1)?.parse().ok()?;
+    Some(pages * 4096.0 / 1e9)
 }
 
 fn hist_json<Op: Serialize>(h: &[Op]) -> Value {
@@ -211,6 +222,12 @@ pub fn explore<S: System>(mk: impl Fn() -> S + Sync, cfg: &ExploreCfg) -> Explor
             stats.cap_hit = Some(format!("time cap {:?} hit; depth {} fully explored", cfg.time_cap, depth));
             break;
         }
+        if let Some(gb) = rss_gb() {
+            if gb > cfg.max_rss_gb {
+                stats.cap_hit = Some(format!("memory cap {} GB hit (resident {:.1} GB); depth {} fully explored", cfg.max_rss_gb, gb, depth));
+                break;
+            }
+        }
         if seen.len() > cfg.max_states {
             stats.cap_hit = Some(format!("state cap {} hit; depth {} fully explored", cfg.max_states, depth));
             break;
@@ -220,6 +237,7 @@ pub fn explore<S: System>(mk: impl Fn() -> S + Sync, cfg: &ExploreCfg) -> Explor
         let workers = if frontier.len() < 96 { 1 } else { jobs.min(frontier.len() / 48).max(1) };
         let chunk = frontier.len().div_ceil(workers).max(1);
         let mk_ref = &mk;
+        let seen_ref = &seen;
         let results: Vec<(Vec<Succ<S::Op>>, u64, u64)> = std::thread::scope(|sc| {
             let handles: Vec<_> = frontier
                 .chunks(chunk)
@@ -228,6 +246,12 @@ pub fn explore<S: System>(mk: impl Fn() -> S + Sync, cfg: &ExploreCfg) -> Explor
                         let mut out = Vec::new();
                         let mut transitions = 0u64;
                         let mut replays = 0u64;
+                        // successors already known (from earlier levels, or earlier in this
+                        // chunk) are dropped here: the merge below keeps the first occurrence
+                        // in frontier order anyway, and their histories need not be stored
+                        let mut local: HashSet<u128> = HashSet::new();
+                        let mut local_sigs: HashSet<String> = HashSet::new();
+                        let mut extra_hits: BTreeMap<String, u64> = BTreeMap::new();
                         for node in nodes {
                             let base = rebuild(mk_ref, &node.hist);
                             replays += 1;
@@ -249,17 +273,31 @@ pub fn explore<S: System>(mk: impl Fn() -> S + Sync, cfg: &ExploreCfg) -> Explor
                                     rebuild(mk_ref, &node.hist)
                                 };
                                 transitions += 1;
-                                let mut hist = node.hist.clone();
-                                hist.push(op.clone());
+                                let mk_hist = || {
+                                    let mut hist = node.hist.clone();
+                                    hist.push(op.clone());
+                                    hist
+                                };
                                 match guarded(&mut s, |s| s.step(&op)) {
                                     Ok(()) => {
                                         let spent = node.spent + c;
                                         let key = crate::hash128(&format!("{}|{}", spent, s.canon()));
-                                        out.push(Succ::New { key, hist, spent, outcome: s.outcome() });
+                                        if !seen_ref.contains(&key) && local.insert(key) {
+                                            out.push(Succ::New { key, hist: mk_hist(), spent, outcome: s.outcome() });
+                                        }
                                     }
-                                    Err(f) => out.push(Succ::Viol { sig: f.sig, detail: f.detail, hist }),
+                                    Err(f) => {
+                                        if local_sigs.insert(f.sig.clone()) {
+                                            out.push(Succ::Viol { sig: f.sig, detail: f.detail, hist: mk_hist(), hits: 1 });
+                                        } else {
+                                            *extra_hits.entry(f.sig).or_default() += 1;
+                                        }
+                                    }
                                 }
                             }
+                        }
+                        for (sig, n) in extra_hits {
+                            out.push(Succ::MoreHits { sig, n });
                         }
                         (out, transitions, replays)
                     })
@@ -291,12 +329,17 @@ pub fn explore<S: System>(mk: impl Fn() -> S + Sync, cfg: &ExploreCfg) -> Explor
                             next.push(Node { hist, spent });
                         }
                     }
-                    Succ::Viol { sig, detail, hist } => {
+                    Succ::Viol { sig, detail, hist, hits } => {
                         stats
                             .violations
                             .entry(sig)
-                            .and_modify(|e| e.2 += 1)
-                            .or_insert_with(|| (detail, hist_json(&hist), 1));
+                            .and_modify(|e| e.2 += hits)
+                            .or_insert_with(|| (detail, hist_json(&hist), hits));
+                    }
+                    Succ::MoreHits { sig, n } => {
+                        if let Some(e) = stats.violations.get_mut(&sig) {
+                            e.2 += n;
+                        }
                     }
                 }
             }
